@@ -4,4 +4,7 @@
 #[cfg(stageleft_runtime)]
 hydro_lang::setup!();
 
+pub mod c31;
 pub mod c32;
+pub mod c33;
+pub mod c34;
